@@ -244,6 +244,9 @@ pub struct CStat {
     pub collections: u64,
     #[serde(default)]
     pub tight: bool,
+    /// layer 3: schedule perturbations executed during the concurrent phase
+    #[serde(default)]
+    pub perturbations: u64,
 }
 
 fn setup<K: BoolKind>(s: &Scen, workers: u32, cap: usize) -> Result<(MRef<K>, Vec<K::F>, Vec<K::F>), String> {
@@ -301,6 +304,7 @@ pub fn run_scen<K: BoolKind>(s: &Scen) -> Result<CStat, String> {
     st.threads = s.scripts.len();
     let bases = Arc::new(bases);
     let vs = Arc::new(vs);
+    crate::c07s::activate(true);
     let results: Vec<Vec<Option<K::F>>> = if s.scripts.len() == 1 {
         vec![run_script::<K>(&mr, &vs, s.n, &bases, &s.scripts[0])]
     } else {
@@ -326,6 +330,7 @@ pub fn run_scen<K: BoolKind>(s: &Scen) -> Result<CStat, String> {
         }
         out
     };
+    crate::c07s::activate(false);
     // every result equals the sequential one
     let mut by_hash: std::collections::HashMap<u64, (usize, usize)> = Default::default();
     for (t, rs) in results.iter().enumerate() {
@@ -407,14 +412,14 @@ fn par_strategy() -> impl Strategy<Value = Scen> {
 }
 
 /// layer 2: 2..16 application threads, small hot diagrams
-fn conc_strategy() -> impl Strategy<Value = Scen> {
+pub fn conc_strategy() -> impl Strategy<Value = Scen> {
     (4u32..=12, proptest::collection::vec(any::<u16>(), 20), proptest::collection::vec(base_strategy(), 2..6), proptest::collection::vec(proptest::collection::vec(cop_strategy(true), 3..25), 2..=16), proptest::sample::select(vec![1u32, 2, 4]), proptest::sample::select(vec![Some(0u32), Some(2), None]), proptest::sample::select(vec![1usize, 16, 1 << 10]))
         .prop_map(|(n, order_keys, bases, scripts, workers, split, cache)| Scen { n, order_keys, bases, scripts, workers, split, cache, tight: 0 })
 }
 
 /// layer 2b: like layer 2 on 8..12 variables with longer scripts in a store that is only
 /// 6..60 % larger than what the live functions need: the background collector runs alongside
-fn tight_strategy() -> impl Strategy<Value = Scen> {
+pub fn tight_strategy() -> impl Strategy<Value = Scen> {
     (8u32..=12, proptest::collection::vec(any::<u16>(), 20), proptest::collection::vec(base_strategy(), 3..6), proptest::collection::vec(proptest::collection::vec(cop_strategy(true), 20..60), 2..=6), proptest::sample::select(vec![1u32, 2, 4]), proptest::sample::select(vec![Some(0u32), Some(2), None]), proptest::sample::select(vec![16usize, 1 << 10]), 1u8..=55)
         .prop_map(|(n, order_keys, bases, mut scripts, workers, split, cache, tight)| {
             if tight % 4 != 0 {
@@ -426,9 +431,19 @@ fn tight_strategy() -> impl Strategy<Value = Scen> {
 }
 
 fn scen_isolated<K: BoolKind>(s: &Scen) -> Result<CStat, String> {
+    scen_isolated_with::<K>(s, || {}, || 0)
+}
+
+/// `before` runs in the child before the scenario (layer 3 installs its yield hook there),
+/// `perturbations` reads the number of schedule perturbations afterwards
+pub fn scen_isolated_with<K: BoolKind>(s: &Scen, before: impl Fn(), perturbations: impl Fn() -> u64) -> Result<CStat, String> {
     let out = isolated(300, |w| {
         progress(&json!({"sig": format!("C07/{}/crash", K::NAME), "kind": K::NAME, "scen": s}).to_string());
-        let r = run_scen::<K>(s);
+        before();
+        let r = run_scen::<K>(s).map(|mut st| {
+            st.perturbations = perturbations();
+            st
+        });
         let _ = writeln!(w, "{}", json!({"ok": r.as_ref().ok(), "err": r.as_ref().err()}));
     });
     match out.end {
@@ -592,6 +607,14 @@ pub fn run(cfg: &Cfg) -> i32 {
     add_kind!(BcddK, 2);
     add_kind!(ZbddK, 3);
     crate::c07s::add_jobs(cfg, &mut jobs, &mut names);
+    // development aid: VERIF_C07_ONLY=<substring of the job name>
+    if let Ok(f) = std::env::var("VERIF_C07_ONLY") {
+        let keep: Vec<bool> = names.iter().map(|n| n.contains(&f)).collect();
+        let mut it = keep.iter();
+        jobs.retain(|_| *it.next().unwrap());
+        let mut it = keep.iter();
+        names.retain(|_| *it.next().unwrap());
+    }
     // these jobs are themselves multi-threaded: run fewer of them at once
     let outs = run_jobs(&mut jobs, (cfg.par / 4).max(2), cfg.t(1500, 7200));
     drop(jobs);
@@ -602,7 +625,7 @@ pub fn run(cfg: &Cfg) -> i32 {
         &total,
         Meta {
             level: "exploration",
-            rule: "layer 1 (parallel recursion): proptest scenarios with operands over 12..20 variables (adder carries, comparators, random DNFs, parities under random orders), one script of 4..14 operations (apply, ite, not, quantification, apply-quantify, gc) executed on a manager with 2/4/8/16 workers and split depth 1/3/20/auto and on a 1-worker manager: every result must have the same canonical structural hash (level, children, tags) as the sequential result. Layer 2 (free-running application threads): 2..16 OS threads each run a generated script on ONE manager (shared base functions, own results, clone/drop, explicit gc() on any thread, cache capacities 1/16/1024 to force contention); every thread's results must equal what a sequential execution of its script yields, equal functions obtained by different threads must be the same handle, and at the quiescent end the structure + reference-count audit must pass. Layer 2b: the same with 2..6 threads running 20..60 operations (incl. compute-and-drop churn) in a store only 6..60 % larger than the live functions need (capacity >= 128), so that the automatic background collector triggered by the high-water mark runs alongside the application threads, repeatedly; an operation may then fail with OutOfMemory (results depending on it are not compared), every other result must be the sequential one; non-trivial there additionally needs >= 2 collections that actually ran. Layer 3 (harness-owned schedules over instrumented yield points) is reported in the same evidence when built. Each scenario runs in a forked child; a watchdog expiry is reported as inconclusive (exit 2), never as a violation. Non-trivial = layer-1 scenario with a result of >= 200 nodes; layer-2 scenario with >= 2 threads and >= 6 results.",
+            rule: "layer 1 (parallel recursion): proptest scenarios with operands over 12..20 variables (adder carries, comparators, random DNFs, parities under random orders), one script of 4..14 operations (apply, ite, not, quantification, apply-quantify, gc) executed on a manager with 2/4/8/16 workers and split depth 1/3/20/auto and on a 1-worker manager: every result must have the same canonical structural hash (level, children, tags) as the sequential result. Layer 2 (free-running application threads): 2..16 OS threads each run a generated script on ONE manager (shared base functions, own results, clone/drop, explicit gc() on any thread, cache capacities 1/16/1024 to force contention); every thread's results must equal what a sequential execution of its script yields, equal functions obtained by different threads must be the same handle, and at the quiescent end the structure + reference-count audit must pass. Layer 2b: the same with 2..6 threads running 20..60 operations (incl. compute-and-drop churn) in a store only 6..60 % larger than the live functions need (capacity >= 128), so that the automatic background collector triggered by the high-water mark runs alongside the application threads, repeatedly; an operation may then fail with OutOfMemory (results depending on it are not compared), every other result must be the sequential one; non-trivial there additionally needs >= 2 collections that actually ran. Layer 3 / 3b (schedule perturbation): the scenarios of layers 2 / 2b are executed with a callback installed at OxiDD's instrumented yield points (cfg oxidd_verif: before a unique-table level is locked, slot allocation and release, the four phases of a garbage collection, apply-cache lookup and insertion) that yields, spins or sleeps as a function of (schedule seed, thread index, call counter) under three policies - uniform perturbation, one victim thread stalled at one kind of point (e.g. the collector right after it cleared the apply cache), fixed priorities with seeded inversions; non-trivial there additionally needs >= 20 perturbations. Each scenario runs in a forked child; a watchdog expiry is reported as inconclusive (exit 2), never as a violation. Non-trivial = layer-1 scenario with a result of >= 200 nodes; layer-2 scenario with >= 2 threads and >= 6 results.",
             assumptions: vec!["free-running schedules are not reproducible exactly; the replay file stores the scenario".into(), "relaxed-memory effects are invisible on x86".into()],
             extra: json!({}),
         },
